@@ -15,6 +15,15 @@ pub mod replay {
 
 fn main() {
     let argv: Vec<String> = std::env::args().collect();
+    // The harness binary doubles as the fake rsync given to routinator as
+    // `rsync-command` (one process per module fetch instead of a shell script).
+    if argv.len() >= 2 && argv[1] == "-h" {
+        println!("vh fake rsync");
+        return
+    }
+    if argv.len() >= 2 && argv[1] == "fake-rsync" {
+        std::process::exit(env::fake_rsync(&argv[2..]));
+    }
     if argv.len() < 2 {
         eprintln!("usage: vh <module> [options]; modules: {:?}", replay::MODULES);
         std::process::exit(2);
